@@ -9,6 +9,7 @@ import ConfModel.Lemmas.Run
 import ConfModel.Lemmas.ClientPipe
 import ConfModel.Lemmas.ClientWait
 import ConfModel.Props.C08
+import ConfModel.Props.C04
 namespace ConfModel.Props.C05
 open ConfModel.Run ConfModel.Trie ConfModel.Glob
 
@@ -335,6 +336,27 @@ theorem batch_wait_counter_sound (names : Nat → ClientRunner.Name) (evs : List
       ClientRunner.wgAdds (ClientRunner.run names ClientRunner.init evs) ids :=
   ClientRunner.wg_le names _ (ClientRunner.reachable_inv names evs) ids
 
+/-! ### the bound as the command line sets it -/
+
+/-- **`--port P` means one server at a time.**  For every invocation the command line accepts with a
+non-zero `--port` (whatever `--max-servers` defaults to; an explicit value above one is refused:
+C04 `port_with_more_servers_refused`), the dispatching system runs with ONE permit: in any state
+reached by any schedule of any number of batches, at most one server is alive — two reference
+servers never compete for port P. -/
+theorem cli_port_one_server_at_a_time (a : Cli.Args) (p : Cli.Plan) (h : Cli.run a = .proceed p) (hp : a.port ≠ 0)
+    (n : Nat) (evs : List Ev) : aliveCount (execSys p.maxServers (initSys n) evs).threads ≤ 1 := by
+  have h1 := ConfModel.Props.C04.port_implies_single_server a p h hp
+  have := (dispatch_bounded p.maxServers n evs).1
+  omega
+
+/-- **Without a port the bound is the `--max-servers` given, or its default**: never more servers
+alive than the flag's value. -/
+theorem cli_servers_bounded (a : Cli.Args) (p : Cli.Plan) (h : Cli.run a = .proceed p) (hp : a.port = 0)
+    (n : Nat) (evs : List Ev) : aliveCount (execSys p.maxServers (initSys n) evs).threads ≤ a.maxServers := by
+  have h1 := (ConfModel.Props.C04.no_port_keeps_max_servers a p h hp).1
+  have := (dispatch_bounded p.maxServers n evs).1
+  omega
+
 /-! ### gRPC-peer permutations go out under their marked names -/
 
 /-- **Shape of a marked name.**  A full name is `prefix ++ simple` (suite, axis components, then the
@@ -431,6 +453,13 @@ example : let s := ClientRunner.run (fun i => 10 + i) ClientRunner.init twoBatch
     ClientRunner.Spec.cbsOf s 0 = [none] ∧ ClientRunner.Spec.cbsOf s 1 = [none] ∧
     ClientRunner.wgAdds s [1, 2] = 2 ∧ ClientRunner.wgDones s [1, 2] = 2 ∧
     ClientRunner.batchWaitPasses s [0] = true ∧ ClientRunner.batchWaitPasses s [1, 2] = true := by decide
+
+/-- `cli_port_one_server_at_a_time` / `cli_servers_bounded`: `--mode client --port 8080 -- client` is
+accepted with one permit although --max-servers is left at 4; `--mode both -- c ---- s` keeps 4 -/
+example : Cli.run { mode := "client", command := ["client"], port := 8080, portGiven := true } =
+      .proceed { client := ["client"], server := [], maxServers := 1, parallel := 64 } ∧
+    Cli.run { mode := "both", command := ["c", "----", "s"] } =
+      .proceed { client := ["c"], server := ["s"], maxServers := 4, parallel := 64 } := by decide
 
 /-- `marked_name_injective` / `marked_names_distinct`: a library in which the test's name repeats
 itself: suite `a` with tests `a` and `a/a`, two HTTP versions -/
